@@ -155,7 +155,7 @@ theorem resOK_mono {sh sh' : Sh} {r : Res} (h : resOK sh r) (hk : sh'.kind = sh.
   | panicF => trivial
 
 /-- `Inv.phase` with the projections of the concrete system reduced -/
-theorem Inv.phase' {sh : Sh} {ths : Nat → Th} (h : Inv ⟨sh, ths⟩) :
+theorem Inv.phaseC {sh : Sh} {ths : Nat → Th} (h : Inv ⟨sh, ths⟩) :
     (sh.once = .empty ∧ (∃ c, sh.data = .seed c) ∧ sh.inits = 0 ∧ ledger0 sh ∧ ∀ u, quiet (ths u)) ∨
     (∃ r a, sh.once = .running r ∧ (ths r).act = some a ∧ runnerOK sh a ∧ ∀ u, u ≠ r → quiet (ths u)) ∨
     (sh.once = .done ∧ (∃ v, sh.data = .value v) ∧ sh.inits = 1 ∧ (∀ u, quietPost (ths u)) ∧
@@ -163,10 +163,10 @@ theorem Inv.phase' {sh : Sh} {ths : Nat → Th} (h : Inv ⟨sh, ths⟩) :
        (∃ h a, (ths h).act = some a ∧ a.slot ≠ none ∧
          (∀ u, u ≠ h → ∀ b, (ths u).act = some b → b.slot = none) ∧ ledger0 sh))) := h.phase
 
-theorem Inv.res' {sh : Sh} {ths : Nat → Th} (h : Inv ⟨sh, ths⟩) :
+theorem Inv.resC {sh : Sh} {ths : Nat → Th} (h : Inv ⟨sh, ths⟩) :
     ∀ u r, r ∈ (ths u).results → resOK sh r := h.res
 
-theorem Inv.nub' {sh : Sh} {ths : Nat → Th} (h : Inv ⟨sh, ths⟩) : sh.ub = false := h.nub
+theorem Inv.nubC {sh : Sh} {ths : Nat → Th} (h : Inv ⟨sh, ths⟩) : sh.ub = false := h.nub
 
 theorem quiet_quietPost {th : Th} (h : quiet th) : quietPost th := fun a ha => Or.inl (h a ha)
 
